@@ -172,7 +172,8 @@ func runLock(ctx *action.Context, lock *Lock) (bool, action.Response) {
 		}
 	}
 
-	if !bytes.Equal(ethTx.To().Bytes(), ethOptions.ContractAddress.Bytes()) {
+	// a contract creation has no recipient
+	if ethTx.To() == nil || !bytes.Equal(ethTx.To().Bytes(), ethOptions.ContractAddress.Bytes()) {
 		ctx.Logger.Error("to field does not match contract address")
 		return false, action.Response{
 			Log: "Contract address does not match",
